@@ -399,7 +399,8 @@ void* gb_alloc(gbuf_t* g, size_t n, size_t align, size_t mis, size_t guard) {
   uintptr_t u = (uintptr_t)g->base + guard;
   u = (u + align - 1) & ~(uintptr_t)(align - 1);
   g->p = (uint8_t*)u + mis;
-  g->cseed = mix64((uint64_t)n * 31 + mis + guard);
+  static uint64_t gb_counter;
+  g->cseed = mix64((uint64_t)n * 31 + mis + guard + __atomic_add_fetch(&gb_counter, 1, __ATOMIC_RELAXED) * 0x9E3779B97F4A7C15ull);  // unique per buffer
   size_t pre = (size_t)(g->p - g->base);
   canary_fill(g->base, g->cseed, 0, pre);
   canary_fill(g->base, g->cseed, pre + n, g->total);
